@@ -5,6 +5,8 @@ go 1.25.0
 require (
 	cuelang.org/go v0.0.0
 	github.com/anishathalye/porcupine v1.3.0
+	golang.org/x/text v0.40.0
+	golang.org/x/tools v0.48.0
 )
 
 require (
@@ -17,7 +19,6 @@ require (
 	github.com/protocolbuffers/txtpbfmt v0.0.0-20260716171823-6d48527148f0 // indirect
 	go.yaml.in/yaml/v3 v3.0.5 // indirect
 	golang.org/x/net v0.57.0 // indirect
-	golang.org/x/text v0.40.0 // indirect
 	google.golang.org/protobuf v1.36.11 // indirect
 )
 
